@@ -91,6 +91,10 @@ def op_strategy(kind: str, cfg: dict):
     if kind == "values":
         return st.fixed_dictionaries({"op": st.just("values"), "data": idx, "vals": vals_strategy(),
                                       "short": st.integers(0, 3)})
+    if kind == "vertices":
+        return st.fixed_dictionaries({"op": st.just("vertices"), "obj": idx, "shift": st.sampled_from([0.5, -1.0, 2.5]),
+                                      "rows": st.sampled_from(["all", "first", "last"]),
+                                      "how": st.sampled_from(["fresh", "inplace"])})
     if kind == "rename":
         return st.fixed_dictionaries({"op": st.just("rename"), "who": idx, "name": name})
     if kind == "flag":
@@ -162,7 +166,7 @@ DEFAULT_CFG = {
     "group_classes": ["ContainerGroup", "SimPEGGroup", "UIJsonGroup", "NoTypeGroup", "ContainerGroup", "DrillholeGroup"],
     "object_classes": F.CORE_OBJECT_CLASSES,
     "data_kinds": ["float", "int", "bool", "ref", "text"],
-    "weights": {"group": 3, "object": 5, "data": 6, "values": 3, "rename": 2, "flag": 2, "move": 4, "copy": 4,
+    "weights": {"group": 3, "object": 5, "data": 6, "values": 3, "vertices": 1, "rename": 2, "flag": 2, "move": 4, "copy": 4,
                 "remove": 4, "pg_add": 4, "pg_remove_props": 2, "pg_delete": 1, "metadata": 1, "file": 1,
                 "comment": 1, "visual": 1, "visual_edit": 1, "dhlog": 1, "type_clash": 0, "create_uid": 1, "remove_many": 1, "reopen": 3, "gc": 2, "hold": 1, "release": 1, "observe": 1},
     "ws2": True,
@@ -977,6 +981,37 @@ class TreeRun:
         node["values"] = ["arr", F.KIND_DTYPE[kind], [len(expected)], expected]
         self.touch(onfile)
         del ent
+        return True
+
+    def op_vertices(self, op):
+        """Coordinates of a point / cell object replaced (same count): by a new array, or by the array the getter
+        returned, edited in place and assigned back."""
+        from ..apisnap import canon_value
+
+        wd = self.w
+        cands = [u for u in wd.of_kind("object") if wd.nodes[u]["cls"] in ("Points", "Curve", "Surface")
+                 and isinstance(wd.nodes[u].get("vertices"), list)]
+        uid = self.pick(cands, op["obj"])
+        if uid is None:
+            return False
+        ent = wd.entity(uid)
+        onfile = ent.on_file
+        self.targets.add(uid)
+        try:
+            current = ent.vertices
+            rows = slice(None) if op["rows"] == "all" else slice(0, 1) if op["rows"] == "first" else slice(-1, None)
+            expected = np.array(current, dtype=float)
+            expected[rows] += op["shift"]
+            if op["how"] == "inplace":
+                current[rows] += op["shift"]
+                ent.vertices = current
+            else:
+                ent.vertices = expected.copy()
+        except Exception as exc:
+            raise OpError(wd.nodes[uid]["cls"]) from exc
+        wd.nodes[uid]["vertices"] = canon_value(expected)
+        self.touch(onfile)
+        del ent, current
         return True
 
     def touch(self, onfile=True):
